@@ -22,6 +22,21 @@ class Table:
         return "Table(%r)" % (self.pairs if self.pairs is not None else self.items)
 
 
+class Opt:
+    """std::optional / QVariant-like maybe-value: v is None when empty"""
+    def __init__(self, v=None):
+        self.v = v
+
+    def __eq__(self, other):
+        return isinstance(other, Opt) and other.v == self.v
+
+    def __hash__(self):
+        return hash(("opt", self.v))
+
+    def __repr__(self):
+        return "Opt(%r)" % (self.v,)
+
+
 class _Ret(Exception):
     def __init__(self, v):
         self.v = v
@@ -109,6 +124,8 @@ class Conc:
             if "cv" in n:
                 return n["cv"]
             raise Unknown("default argument")
+        if k == "ref" and (n.get("name") or "").endswith("nullopt"):
+            return Opt(None)
         if k == "ref":
             d = n.get("decl")
             if d in env:
@@ -178,6 +195,8 @@ class Conc:
         raise Unknown("expression kind %s" % k)
 
     def truth(self, v):
+        if isinstance(v, Opt):
+            return v.v is not None
         if isinstance(v, int):
             return bool(v)
         raise Unknown("condition is not an integer")
@@ -227,6 +246,8 @@ class Conc:
 
     def store(self, lhs, v, env):
         lhs = skip_copies(lhs)
+        if "std::optional<" in (lhs.get("type") or "") and not isinstance(v, Opt):
+            v = Opt(v)
         if self.store_hook is not None and self.store_hook(lhs, v, env):
             return
         if lhs.get("k") == "ref" and lhs.get("decl"):
@@ -246,6 +267,12 @@ class Conc:
         s = const_str(n)
         if s is not None:
             return s
+        if n.get("k") == "construct" and strip_tmpl((n.get("class") or "")) == "std::optional":
+            a_ = [x for x in n.get("args", []) if x.get("k") != "defaultarg"]
+            if not a_:
+                return Opt(None)
+            v_ = self.eval(a_[0], env, depth)
+            return v_ if isinstance(v_, Opt) else Opt(v_)
         if n.get("k") in ("construct", "initlist"):
             t = strip_tmpl((n.get("class") or n.get("type") or "").replace("const ", ""))
             args = n.get("args") if n.get("k") == "construct" else n.get("els")
@@ -299,8 +326,23 @@ class Conc:
         short = strip_tmpl(callee).split("::")[-1]
         args = [a for a in n.get("args", [])]
         op = n.get("op")
-        if op in ("==", "!=", "<", ">", "<=", ">=", "+") and len(args) == 2:
+        if op in ("==", "!=") and len(args) == 2:
+            a_, b_ = self.eval(args[0], env, depth), self.eval(args[1], env, depth)
+            if isinstance(a_, Opt) or isinstance(b_, Opt):
+                av_ = a_.v if isinstance(a_, Opt) else a_
+                bv_ = b_.v if isinstance(b_, Opt) else b_
+                eq = (av_ is not None or isinstance(a_, Opt) and isinstance(b_, Opt)) and av_ == bv_
+                return int(eq if op == "==" else not eq)
+            return self.arith(op, a_, b_)
+        if op in ("<", ">", "<=", ">=", "+") and len(args) == 2:
             return self.arith(op, self.eval(args[0], env, depth), self.eval(args[1], env, depth))
+        if op == "*" and len(args) == 1:
+            o_ = self.eval(args[0], env, depth)
+            if isinstance(o_, Opt):
+                if o_.v is None:
+                    raise Unknown("dereference of an empty optional")
+                return o_.v
+            return o_
         if op == "!" and len(args) == 1:
             return int(not self.truth(self.eval(args[0], env, depth)))
         if op == "=" and len(args) == 2:
@@ -308,6 +350,21 @@ class Conc:
             self.store(args[0], v, env)
             return v
         obj = n.get("obj")
+        if n.get("ck") == "member" and isinstance(obj, dict) and strip_tmpl(n.get("cls") or "") in ("std::optional", "std::_Optional_base", "std::_Optional_base_impl"):
+            o = self.eval(obj, env, depth)
+            if isinstance(o, Opt):
+                if short in ("operator bool", "has_value") or n.get("conv"):
+                    return int(o.v is not None)
+                if short in ("value", "operator*", "operator->"):
+                    if o.v is None:
+                        raise Unknown("value of an empty optional")
+                    return o.v
+                if short == "value_or" and args:
+                    return o.v if o.v is not None else self.eval(args[0], env, depth)
+                if short == "reset":
+                    self.store(obj, Opt(None), env)
+                    return 0
+            raise Unknown("optional method %s" % short)
         if n.get("ck") == "member" and isinstance(obj, dict):
             cls = strip_tmpl(n.get("cls") or "")
             if cls in STRING_TYPES or cls.startswith("QString"):
